@@ -436,8 +436,6 @@ func runBufRW(c Case) pbt.Verdict {
 	return verdict(msg, st)
 }
 
-var memStore *memory.Store
-
 func runMemFile(c Case) pbt.Verdict {
 	if c.Cap < 0 || c.Cap > 1<<16 {
 		return pbt.Verdict{Discard: true}
